@@ -18,9 +18,13 @@ import (
 type vector struct {
 	Vec int    `json:"vec"`
 	Ty  string `json:"ty"`
-	Op  string `json:"op"` // Enc | EncBare | Fn (a whole request: id + arguments)
+	Op  string `json:"op"` // Enc | EncBare | Fn (a whole request: id + arguments) | Dec (reflective phase: arbitrary bytes with TlSem!Dec's verdict)
 	V   any    `json:"v"`
 	Hex string `json:"hex"`
+	// op Dec only
+	Ok   bool   `json:"ok"`
+	Rest int    `json:"rest"`
+	Cls  string `json:"cls"`
 }
 
 func readVectors(path string) ([]vector, error) {
@@ -54,6 +58,11 @@ func Replay(in string, w *ev.Writer, o Opts) error {
 		return err
 	}
 	ts, err := targets(s)
+	if o.Part == "reflective" {
+		if err = assertReflective(); err == nil {
+			ts, err = targetsOf(s, reflTypes, nil)
+		}
+	}
 	if err != nil {
 		return err
 	}
@@ -74,6 +83,41 @@ func Replay(in string, w *ev.Writer, o Opts) error {
 			continue
 		}
 		n++
+		if v.Op == "Dec" {
+			// arbitrary bytes: tl.Unmarshal must return a value exactly when TlSem!Dec does — the same value, the same
+			// number of unread bytes — and an error (never a panic) otherwise
+			tg, okT := byKey[v.Ty+"/Enc"]
+			if !okT {
+				return fmt.Errorf("vector %d: no Go target for %s", v.Vec, v.Ty)
+			}
+			gv, rest, uerr, pan := unmarshal(tg.T, data)
+			var fails []ev.M
+			switch {
+			case pan != "":
+				fails = append(fails, ev.M{"stage": "Dec", "sub": "panic", "detail": pan})
+			case v.Ok && uerr != nil:
+				fails = append(fails, ev.M{"stage": "Dec", "sub": "refused", "detail": uerr.Error()})
+			case !v.Ok && uerr == nil:
+				fails = append(fails, ev.M{"stage": "Dec", "sub": "accepted", "detail": "a value for bytes the specification refuses"})
+			case v.Ok:
+				j, err := s.TvToJSON(tyOf(v.Ty), gv)
+				if err != nil {
+					return err
+				}
+				if tlval.TvCanon(j) != tlval.TvCanon(v.V) {
+					fails = append(fails, ev.M{"stage": "Dec", "sub": "differs", "detail": "decoded value differs", "got_v": j})
+				} else if rest != v.Rest {
+					fails = append(fails, ev.M{"stage": "Dec", "sub": "unread", "detail": fmt.Sprintf("%d bytes left unread, specification %d", rest, v.Rest)})
+				}
+			}
+			res["match"] = len(fails) == 0
+			res["cls"] = v.Cls
+			if len(fails) > 0 {
+				res["fails"] = fails
+			}
+			w.Emit(res)
+			continue
+		}
 		if v.Op == "Fn" {
 			tag, name, val, derr := liteclient.LiteapiRequestDecoder(data)
 			d := s.Fn(v.Ty)
